@@ -414,6 +414,20 @@ func c13Run(c *core.Ctx) {
 							}
 						}
 						runPos([]byte(sb.String()), "application/x-ndjson", "P2:stream")
+						// the same stream with a blank line after its second record
+						if len(sel) >= 3 {
+							sb.Reset()
+							for i, ri := range sel {
+								if i == 2 {
+									sb.WriteString(eol)
+								}
+								sb.WriteString(recs[ri])
+								if i < len(sel)-1 || final {
+									sb.WriteString(eol)
+								}
+							}
+							runPos([]byte(sb.String()), "application/x-ndjson", "P2:stream-with-blank-line")
+						}
 					}
 				}
 			}
@@ -510,17 +524,29 @@ func c13Run(c *core.Ctx) {
 					if !c.Next() {
 						continue
 					}
-					var lines []string
-					for i := 0; i < k; i++ {
-						if i == pos {
-							lines = append(lines, dmg)
-						} else {
-							lines = append(lines, good)
+					// blank lines are legal anywhere in a stream: one (empty, or holding
+					// a space) before line `blank`, none for -1
+					for blank := -1; blank < k; blank++ {
+						for _, bl := range []string{"", " "} {
+							if blank < 0 && bl != "" {
+								continue
+							}
+							var lines []string
+							for i := 0; i < k; i++ {
+								if i == blank {
+									lines = append(lines, bl)
+								}
+								if i == pos {
+									lines = append(lines, dmg)
+								} else {
+									lines = append(lines, good)
+								}
+							}
+							for _, eol := range []string{"\n", "\r\n"} {
+								runNeg([]byte(strings.Join(lines, eol)+eol), "N3:damaged-stream")
+								runNeg([]byte(strings.Join(lines, eol)), "N3:damaged-stream")
+							}
 						}
-					}
-					for _, eol := range []string{"\n", "\r\n"} {
-						runNeg([]byte(strings.Join(lines, eol)+eol), "N3:damaged-stream")
-						runNeg([]byte(strings.Join(lines, eol)), "N3:damaged-stream")
 					}
 				}
 			}
